@@ -446,7 +446,7 @@ func (state *BeaconStateView) AddValidator(spec *common.Spec, pub common.BLSPubk
 	if err != nil {
 		return err
 	}
-	if err := inActivityScores.Append(Uint8View(0)); err != nil {
+	if err := inActivityScores.Append(Uint64View(0)); err != nil {
 		return err
 	}
 	// New in Altair: init inactivity score
